@@ -64,6 +64,9 @@ def run(ctx):
         jobs.append('%s+g;;acq0:0,acqe0:1,acq0:2,tch0,tch1,tch2;swp0:0,swp0:0' % c)
         jobs.append('%s+g;;acqe0:0,tch0,acqe0:1,tch1;swp0:0;swp0:0' % c)
         jobs.append('%s+g;;acq0:0,cpy0:1,rst0,acqe0:0,tch1,mov1:2,tch2;swp0:1,swp0:1' % c)
+        # the snapshot of a guard includes the mark bits: same object, mark changed between two acquisitions into the same guard
+        jobs.append('%s+g;;acq0:0,mrk0:1,acq0:0,tch0,acqe0:0,mrk0:2,acqe0:0,acq0:1,mrk0:0,acq0:1,acq0:0,swp0:2' % c)
+        jobs.append('%s+g;;acq0:0,acq0:0,acqe0:1,acq0:1,tch0,tch1;mrk0:1,mrk0:3,swp0:0,mrk0:2' % c)
     run_client(ctx, jobs, pb=2 if q else 3, max_exec=300 if q else 10000)
     for r in ctx.tv[1:3]:
         ctx.samples.append({'driver': 'reclaim', 'history': canonical_sample(execution_lines(r['trace'], 2), 80)})
